@@ -110,7 +110,7 @@ DOC = {
     'noise_opts': {
         'add_noise': ('bool', ['True', 'False']),
         'min_offset': ('float', ['0.0', '330.5']),
-        'max_offset': ('float', ['420.5', '1e4']),
+        'max_offset': ('float', ['420.5', '1e4', 'inf']),
         'mean_noise': ('float', ['0.0', '0.5']),
         'ntype': ('str', ['white_noise', 'gaussian_correlated',
                           'gaussian_uncorrelated']),
@@ -150,9 +150,12 @@ GRID_SMALL = [('gridding_opts', 'min_width_limits', '150, 200'),
               ('data', 'sources', 'TxED-2'), ('data', 'frequencies', 'f-2')]
 
 # Verbatim example values of cli.rst that are not in the alphabets above.
-EXAMPLES = [('simulation', 'max_workers', '4'),
-            ('simulation', 'file_dir', 'None'),
-            ('noise_opts', 'max_offset', 'np.inf')]
+# ('file_dir = None' and 'max_offset = np.inf' are NOT included: these lines
+# of cli.rst show the Python defaults of the API next to the commented-out
+# key, they are not values in the configuration-file syntax; demanding that
+# the strings 'None' / 'np.inf' be accepted would demand more than the
+# property states.  'max_offset = inf' is in the alphabet above.)
+EXAMPLES = [('simulation', 'max_workers', '4')]
 
 # command-line flags: (label, argv tokens, overlapping config key or None)
 FLAGS = [
@@ -311,6 +314,11 @@ def interpret(cfg, flags, cwd):
     for sec in ('solver_opts', 'gridding_opts'):
         if conf.get(sec):
             sim[sec] = dict(conf[sec])
+    # The one documented CLI key whose API argument is spelled differently:
+    # [gridding_opts] cell_number  <->  gridding_opts['cell_numbers'].
+    if 'cell_number' in sim.get('gridding_opts', {}):
+        sim['gridding_opts']['cell_numbers'] = sim['gridding_opts'].pop(
+            'cell_number')
     if conf.get('layered'):
         lo = {k: v for k, v in conf['layered'].items() if k not in ELLIPSE}
         ell = {k: v for k, v in conf['layered'].items() if k in ELLIPSE}
@@ -791,11 +799,11 @@ def one_run(c, steps, tmp):
             compared += 1
             if status == 'ok':
                 viol.append({
-                    'cls': f'unknown-{expect_reject}-accepted',
+                    'cls': f'{lab}-accepted',
                     'what': f"unknown option {step['what']} was accepted "
                             "without an error" + sfx})
-            outcomes.append(f"rejected:{status}:"
-                            f"{type(what).__name__ if status == 'raise' else what}")
+            how = type(what).__name__ if status == 'raise' else what
+            outcomes.append(f"rejected:{status}:{how}")
             continue
         if status != 'ok':
             compared += 1
@@ -905,8 +913,9 @@ def one_run(c, steps, tmp):
             changed = None
         if plan['dry']:
             changed = None
-        oc = f"{plan['fn']}:{'dry' if plan['dry'] else 'run'}:" \
-             f"{'-' if changed is None else 'changed' if changed else 'as-default'}:" \
+        chg = ('-' if changed is None else
+               'changed' if changed else 'as-default')
+        oc = f"{plan['fn']}:{'dry' if plan['dry'] else 'run'}:{chg}:" \
              f"{'x'.join(map(str, np.shape(ref['data'])))}" \
              f"{':pool' + str(cpools[0]) if cpools else ''}"
         outcomes.append(oc)
@@ -1223,7 +1232,8 @@ def cases_reject():
     for toks in (['--bogus'], ['-x'], ['--survey'], ['-f', '-m'],
                  ['--gradient', '--forward'], ['--nproc', 'two'],
                  ['--verbosity', '5'], ['-v', '-q'], ['--cleanup'],
-                 ['--layer'], ['extra.cfg', 'positional']):
+                 ['--layers'], ['--cell_number', '8'],
+                 ['extra.cfg', 'positional']):
         n += 1
         st = {'cfg': [list(e) for e in base_cfg()],
               'flags': list(toks) + ['-d'],
